@@ -680,40 +680,96 @@ Proof.
     destruct (pcell p i =? 0) eqn:E; [left; reflexivity|right]. rewrite (Ha i Hi) by (apply Z.eqb_neq; exact E). reflexivity.
 Qed.
 
-Theorem sudoku_total : forall p, length p = 81%nat -> solve_sudoku p <> None.
+(* -- the pipeline without the range test of `solve` (= the code before COMMIT_sudoku_clues) -- *)
+Lemma sudoku_prefix_total : forall p, length p = 81%nat -> solve_sudoku_prefix p <> None.
 Proof.
-  intros p Hl. unfold solve_sudoku. rewrite sudoku_props_eq.
+  intros p Hl. unfold solve_sudoku_prefix. rewrite sudoku_props_eq.
   apply run_total; [rewrite sudoku_store_length; exact Hl|apply wf_sudoku_store|apply posts_scope].
 Qed.
 
-Theorem sudoku_complete : forall p, length p = 81%nat -> (exists g, valid_sudoku g /\ agrees p g) ->
-  exists g', solve_sudoku p = Some (Some g').
+Lemma sudoku_prefix_complete : forall p, length p = 81%nat -> (exists g, valid_sudoku g /\ agrees p g) ->
+  exists g', solve_sudoku_prefix p = Some (Some g').
 Proof.
-  intros p Hl H. unfold solve_sudoku. rewrite sudoku_props_eq.
+  intros p Hl H. unfold solve_sudoku_prefix. rewrite sudoku_props_eq.
   apply (run_complete p); [rewrite sudoku_store_length; exact Hl|apply wf_sudoku_store|apply posts_scope|apply sudoku_Hcompl; exact Hl|exact H].
 Qed.
 
-Theorem sudoku_none_sound : forall p, length p = 81%nat -> solve_sudoku p = Some None ->
+Lemma sudoku_prefix_none_sound : forall p, length p = 81%nat -> solve_sudoku_prefix p = Some None ->
   forall g, ~ (valid_sudoku g /\ agrees p g).
 Proof.
-  intros p Hl H. unfold solve_sudoku in H. rewrite sudoku_props_eq in H.
+  intros p Hl H. unfold solve_sudoku_prefix in H. rewrite sudoku_props_eq in H.
   apply (run_none p (sudoku_store p) (sudoku_posts p)); [rewrite sudoku_store_length; exact Hl|apply wf_sudoku_store|apply posts_scope|apply sudoku_Hcompl; exact Hl|exact H].
 Qed.
 
-Theorem sudoku_sound : forall p g, length p = 81%nat -> clues_ok p ->
-  solve_sudoku p = Some (Some g) -> valid_sudoku g /\ agrees p g.
+Lemma sudoku_prefix_sound : forall p g, length p = 81%nat -> clues_ok p ->
+  solve_sudoku_prefix p = Some (Some g) -> valid_sudoku g /\ agrees p g.
 Proof.
-  intros p g Hl Hok H. unfold solve_sudoku in H. rewrite sudoku_props_eq in H.
+  intros p g Hl Hok H. unfold solve_sudoku_prefix in H. rewrite sudoku_props_eq in H.
   apply (run_sound p (sudoku_store p) (sudoku_posts p)) in H; [exact H|rewrite sudoku_store_length; exact Hl|apply wf_sudoku_store|apply posts_scope|].
   intros a Hi0 _. pose proof (proj1 (inst_sudoku_store p a Hl) Hi0) as Hi. split; intros i Hi81; [|intros Hne]; specialize (Hi i Hi81).
   - destruct (pcell p i =? 0) eqn:E; [exact Hi|]. apply Z.eqb_neq in E. specialize (Hok i Hi81). lia.
   - destruct (pcell p i =? 0) eqn:E; [apply Z.eqb_eq in E; contradiction|exact Hi].
 Qed.
 
+Lemma solve_sudoku_prefix_exec_eq : forall p, length p = 81%nat -> solve_sudoku_prefix_exec p = solve_sudoku_prefix p.
+Proof.
+  intros p Hl. unfold solve_sudoku_prefix_exec, solve_sudoku_prefix. rewrite sudoku_props_eq.
+  apply run_exec_eq; [rewrite sudoku_store_length; exact Hl|apply wf_sudoku_store|apply posts_scope].
+Qed.
+
+(* -- the repaired solver: the range test of `solve`, then the pipeline -- *)
+(* a puzzle that has a completion has all its cells in 0..9: a non-empty cell is the digit of the completion *)
+Lemma completion_clues_ok : forall p g, valid_sudoku g /\ agrees p g -> clues_ok p.
+Proof.
+  intros p g [[_ [Hr _]] Ha] i Hi. destruct (Z.eq_dec (pcell p i) 0) as [E|E]; [lia|].
+  rewrite <- (Ha i Hi E). specialize (Hr i Hi). lia.
+Qed.
+
+Lemma clues_okb_false : forall p, length p = 81%nat -> clues_okb p = false -> ~ clues_ok p.
+Proof. intros p Hl E H. apply (clues_okb_spec p Hl) in H. congruence. Qed.
+
+(* a cell outside 0..9 => none, whatever the rest of the grid *)
+Theorem sudoku_out_of_range_none : forall p, length p = 81%nat -> ~ clues_ok p -> solve_sudoku p = Some None.
+Proof.
+  intros p Hl H. unfold solve_sudoku. destruct (clues_okb p) eqn:E; [|reflexivity].
+  exfalso. apply H. apply (clues_okb_spec p Hl). exact E.
+Qed.
+
+Lemma solve_sudoku_in_range : forall p, clues_okb p = true -> solve_sudoku p = solve_sudoku_prefix p.
+Proof. intros p E. unfold solve_sudoku. rewrite E. reflexivity. Qed.
+
+Theorem sudoku_total : forall p, length p = 81%nat -> solve_sudoku p <> None.
+Proof.
+  intros p Hl. unfold solve_sudoku. destruct (clues_okb p); cbn [negb]; [apply sudoku_prefix_total; exact Hl|discriminate].
+Qed.
+
+Theorem sudoku_complete : forall p, length p = 81%nat -> (exists g, valid_sudoku g /\ agrees p g) ->
+  exists g', solve_sudoku p = Some (Some g').
+Proof.
+  intros p Hl H. assert (Hok : clues_okb p = true).
+  { destruct H as [g Hc]. apply (clues_okb_spec p Hl). exact (completion_clues_ok p g Hc). }
+  rewrite (solve_sudoku_in_range p Hok). apply sudoku_prefix_complete; assumption.
+Qed.
+
+Theorem sudoku_none_sound : forall p, length p = 81%nat -> solve_sudoku p = Some None ->
+  forall g, ~ (valid_sudoku g /\ agrees p g).
+Proof.
+  intros p Hl H g Hc. destruct (clues_okb p) eqn:E.
+  - rewrite (solve_sudoku_in_range p E) in H. exact (sudoku_prefix_none_sound p Hl H g Hc).
+  - exact (clues_okb_false p Hl E (completion_clues_ok p g Hc)).
+Qed.
+
+Theorem sudoku_sound : forall p g, length p = 81%nat ->
+  solve_sudoku p = Some (Some g) -> valid_sudoku g /\ agrees p g.
+Proof.
+  intros p g Hl H. unfold solve_sudoku in H. destruct (clues_okb p) eqn:E; cbn [negb] in H; [|discriminate].
+  apply (sudoku_prefix_sound p g Hl); [apply (clues_okb_spec p Hl); exact E|exact H].
+Qed.
+
 Theorem solve_sudoku_exec_eq : forall p, length p = 81%nat -> solve_sudoku_exec p = solve_sudoku p.
 Proof.
-  intros p Hl. unfold solve_sudoku_exec, solve_sudoku. rewrite sudoku_props_eq.
-  apply run_exec_eq; [rewrite sudoku_store_length; exact Hl|apply wf_sudoku_store|apply posts_scope].
+  intros p Hl. unfold solve_sudoku_exec, solve_sudoku. destruct (clues_okb p); cbn [negb]; [|reflexivity].
+  apply solve_sudoku_prefix_exec_eq. exact Hl.
 Qed.
 
 (* ---- the general solver on the same puzzle ---- *)
@@ -772,14 +828,14 @@ Proof.
 Qed.
 
 (* same verdict as the general solver *)
-Theorem agrees_general_solver : forall p, length p = 81%nat -> clues_ok p ->
+Theorem agrees_general_solver : forall p, length p = 81%nat ->
   verdict (solve_sudoku p) = verdict (solve_general p).
 Proof.
-  intros p Hl Hok.
+  intros p Hl.
   pose proof (sudoku_total p Hl) as T1. pose proof (general_total p) as T2.
   destruct (solve_sudoku p) as [[g|]|] eqn:E1; [| |congruence];
   destruct (solve_general p) as [[g'|]|] eqn:E2; try congruence; try reflexivity; exfalso.
-  - apply (general_none_sound p E2 g). apply (sudoku_sound p g Hl Hok E1).
+  - apply (general_none_sound p E2 g). apply (sudoku_sound p g Hl E1).
   - apply (sudoku_none_sound p Hl E1 g'). apply (general_sound p g' E2).
 Qed.
 
@@ -802,18 +858,24 @@ Proof.
   exists p. split; [reflexivity|]. apply sudoku_none_sound; [apply (parse_string_ok bs p E)|exact H].
 Qed.
 
-(* ---- the premise clues_ok of sudoku_sound cannot be dropped: a clue 10 is returned as such ---- *)
+(* ---- before COMMIT_sudoku_clues (no range test): the premise clues_ok of sudoku_prefix_sound cannot be
+   dropped, a clue 10 is returned as such; the repaired solver answers none on the same puzzle ---- *)
 Definition bad_puzzle : puzzle := 10 :: repeat 0 80.
 Lemma sudoku_sound_out_of_range_refuted :
-  exists p g, length p = 81%nat /\ solve_sudoku p = Some (Some g) /\ ~ valid_sudoku g /\ verdict (solve_general p) = Some false.
+  exists p g, length p = 81%nat /\ solve_sudoku_prefix p = Some (Some g) /\ ~ valid_sudoku g /\ verdict (solve_general p) = Some false.
 Proof.
   exists bad_puzzle.
-  assert (E : exists g, solve_sudoku_exec bad_puzzle = Some (Some g) /\ valid_sudokub g = false /\
+  assert (E : exists g, solve_sudoku_prefix_exec bad_puzzle = Some (Some g) /\ valid_sudokub g = false /\
                         verdict (solve_general_exec bad_puzzle) = Some false).
   { vm_compute. eexists. split; [reflexivity|split; reflexivity]. }
   destruct E as [g [E1 [E2 E3]]]. exists g. split; [reflexivity|].
-  rewrite <- solve_sudoku_exec_eq by reflexivity. rewrite <- solve_general_exec_eq. split; [exact E1|]. split; [|exact E3].
+  rewrite <- solve_sudoku_prefix_exec_eq by reflexivity. rewrite <- solve_general_exec_eq. split; [exact E1|]. split; [|exact E3].
   intros Hv. apply valid_sudokub_spec in Hv. congruence.
+Qed.
+Lemma sudoku_out_of_range_repaired : solve_sudoku bad_puzzle = Some None /\ verdict (solve_general bad_puzzle) = Some false.
+Proof.
+  split; [apply sudoku_out_of_range_none; [reflexivity|]|rewrite <- solve_general_exec_eq; vm_compute; reflexivity].
+  intros H. specialize (H 0%nat ltac:(lia)). vm_compute in H. destruct H as [_ H]. apply H. reflexivity.
 Qed.
 
 (* non-vacuity: the first doc example of sudoku.rs *)
